@@ -3,6 +3,10 @@
 //
 //   val_harness run <scenarios.ndjson> [withdoc]
 //
+// Every scenario line lists the archives ("archs") and the media ("media": mem | sstream | short<k> - see vh::MakeStream)
+// on which it is executed: one run per (scenario, archive, medium); a stream medium goes through the std::istream
+// overload of LoadObject.
+//
 // A scenario describes a class (fields: key, type, up to 3 validators each), a document (per field: a value, absent,
 // null or a value of the wrong kind), a placement (flat / nested / array / map / root array), maxValidationErrors and
 // the archives on which it is meaningful.  For every (scenario, archive):
@@ -47,7 +51,7 @@ struct Scenario
 	size_t nel = 1;
 	uint32_t cap = 0;
 	std::vector<FieldCfg> fields;
-	std::vector<std::string> archs;
+	std::vector<std::string> archs, media;
 };
 
 const Scenario* g_scn = nullptr;
@@ -185,7 +189,7 @@ std::string DescribeCurrentException(std::string& errs)
 }
 
 template <class TArchive>
-std::string RunScenario(const Scenario& s, bool withDoc)
+std::string RunScenario(const Scenario& s, const std::string& medium, bool withDoc)
 {
 	constexpr bool isCsv = std::is_same_v<TArchive, Csv::CsvArchive>;
 	SerializationOptions options;
@@ -215,7 +219,15 @@ std::string RunScenario(const Scenario& s, bool withDoc)
 	// 2. the load into the validated class
 	std::string exc = "[\"none\"]", errs, vals;
 	auto load = [&](auto& target) {
-		try { LoadObject<TArchive>(target, data, options); }
+		try
+		{
+			if (medium == "mem") LoadObject<TArchive>(target, data, options);
+			else
+			{
+				auto holder = vh::MakeStream(medium, std::string(data.data(), data.size()));
+				LoadObject<TArchive>(target, holder.get(), options);
+			}
+		}
 		catch (...) { exc = DescribeCurrentException(errs); }
 	};
 	if (s.place == "rootarr") { std::vector<VObj> t; load(t); for (const auto& o : t) o.AppendValues(vals); }
@@ -242,6 +254,8 @@ Scenario ParseScenario(const std::string& line)
 	s.nel = d["nel"].GetUint();
 	s.cap = d["cap"].GetUint();
 	for (const auto& a : d["archs"].GetArray()) s.archs.emplace_back(a.GetString());
+	if (d.HasMember("media")) for (const auto& m : d["media"].GetArray()) s.media.emplace_back(m.GetString());
+	if (s.media.empty()) s.media.emplace_back("mem");
 	for (const auto& jf : d["fields"].GetArray())
 	{
 		FieldCfg f;
@@ -273,27 +287,27 @@ int main(int argc, char** argv)
 	if (argc < 3 || std::string(argv[1]) != "run") { fprintf(stderr, "usage: val_harness run <scenarios.ndjson> [withdoc]\n"); return 3; }
 	const bool withDoc = argc > 3 && std::string(argv[3]) == "withdoc";
 	const auto lines = vh::ReadLines(argv[2]);
-	std::vector<std::pair<size_t, std::string>> runs;
+	struct Run { size_t line; std::string arch, medium; };
+	std::vector<Run> runs;
 	for (size_t i = 0; i < lines.size(); ++i)
 	{
-		rapidjson::Document d;
-		d.Parse(lines[i].c_str());
-		if (d.HasParseError()) Die("bad scenario line " + std::to_string(i));
-		for (const auto& a : d["archs"].GetArray()) runs.emplace_back(i, a.GetString());
+		const Scenario sc = ParseScenario(lines[i]);
+		for (const auto& a : sc.archs) for (const auto& m : sc.media) runs.push_back({ i, a, m });
 	}
 	size_t cachedIndex = static_cast<size_t>(-1);
 	Scenario scn;
 	return vh::ForkedRunner(runs.size(), [&](size_t r) {
-		if (cachedIndex != runs[r].first) { scn = ParseScenario(lines[runs[r].first]); cachedIndex = runs[r].first; }
+		if (cachedIndex != runs[r].line) { scn = ParseScenario(lines[runs[r].line]); cachedIndex = runs[r].line; }
 		g_scn = &scn;
-		const std::string& arch = runs[r].second;
-		vh::TerminateContext() = scn.id + "/" + arch;
+		const std::string& arch = runs[r].arch;
+		const std::string& medium = runs[r].medium;
+		vh::TerminateContext() = scn.id + "/" + arch + "/" + medium;
 		std::string res;
-		if (arch == "json") res = RunScenario<Json::RapidJson::JsonArchive>(scn, withDoc);
-		else if (arch == "xml") res = RunScenario<Xml::PugiXml::XmlArchive>(scn, withDoc);
-		else if (arch == "msgpack") res = RunScenario<MsgPack::MsgPackArchive>(scn, withDoc);
-		else if (arch == "csv") res = RunScenario<Csv::CsvArchive>(scn, withDoc);
+		if (arch == "json") res = RunScenario<Json::RapidJson::JsonArchive>(scn, medium, withDoc);
+		else if (arch == "xml") res = RunScenario<Xml::PugiXml::XmlArchive>(scn, medium, withDoc);
+		else if (arch == "msgpack") res = RunScenario<MsgPack::MsgPackArchive>(scn, medium, withDoc);
+		else if (arch == "csv") res = RunScenario<Csv::CsvArchive>(scn, medium, withDoc);
 		else Die("unknown archive " + arch);
-		fprintf(stdout, "{\"run\":%zu,\"id\":\"%s\",\"arch\":\"%s\",%s}\n", r, scn.id.c_str(), arch.c_str(), res.c_str());
+		fprintf(stdout, "{\"run\":%zu,\"id\":\"%s\",\"arch\":\"%s\",\"medium\":\"%s\",%s}\n", r, scn.id.c_str(), arch.c_str(), medium.c_str(), res.c_str());
 	});
 }
